@@ -29,7 +29,7 @@ package entrypoint
 
 //@ func (i IBCMiddleware) OnRecvPacket(ctx, packet, relayer) (ack)
 //@   requires[inv] i.IBCModule != nil && i.payloadAdapter != nil
-//@   requires[C01] bankNonneg(bank)
+//@   requires[C01,C11] bankNonneg(bank)
 //@   modifies ghosts
 //
 //   C07: traffic not addressed to the orbiter is handed to the wrapped application exactly once, with
@@ -59,17 +59,32 @@ package entrypoint
 //   The clauses after the closed form spell out, for that closed form, what the statement lists: supply changes only by the CCTP
 //   burn; balances in other denominations do not change; accounts other than the escrow, the orbiter,
 //   the dust collector, the fee recipients and the route's sink do not change.
-//@   ensures[C02] ackSuccess(ack) && forOrb(packet) ==> theOp() != nil && theOp().Payload != nil && payloadOK(theOp().Payload)
-//@   ensures[C02] ackSuccess(ack) && forOrb(packet) ==> plN(theOp().Payload) <= 2 && actsOKN(pktAmount(packet), theOp().Payload.PreActions, plN(theOp().Payload)) && fwdAttrKnown(plAttr(theOp().Payload)) && plOut(pktAmount(packet), theOp().Payload) > 0
-//@   ensures[C02] ackSuccess(ack) && forOrb(packet) ==> wrapped_bank0 == sweepLedger(old(bank), pktDenom(packet)) && wrapped_bank == creditLedger(sweepLedger(old(bank), pktDenom(packet)), packet)
-//@   ensures[C02] ackSuccess(ack) && forOrb(packet) ==> bank == xferLedger(packet, theOp().Payload)
-//@   ensures[C02] ackSuccess(ack) && forOrb(packet) ==> bal(actsStepN(creditLedger(sweepLedger(old(bank), pktDenom(packet)), packet), pktAmount(packet), pktDenom(packet), theOp().Payload.PreActions, plN(theOp().Payload)), core.ModuleAddress, pktDenom(packet)) == plOut(pktAmount(packet), theOp().Payload)
+//@   ensures[C02,C11] ackSuccess(ack) && forOrb(packet) ==> theOp() != nil && theOp().Payload != nil && payloadOK(theOp().Payload)
+//@   ensures[C02,C11] ackSuccess(ack) && forOrb(packet) ==> plN(theOp().Payload) <= 2 && actsOKN(pktAmount(packet), theOp().Payload.PreActions, plN(theOp().Payload)) && fwdAttrKnown(plAttr(theOp().Payload)) && plOut(pktAmount(packet), theOp().Payload) > 0
+//@   ensures[C02,C11] ackSuccess(ack) && forOrb(packet) ==> wrapped_bank0 == sweepLedger(old(bank), pktDenom(packet)) && wrapped_bank == creditLedger(sweepLedger(old(bank), pktDenom(packet)), packet)
+//@   ensures[C02,C11] ackSuccess(ack) && forOrb(packet) ==> bank == xferLedger(packet, theOp().Payload)
+//@   ensures[C02,C11] ackSuccess(ack) && forOrb(packet) ==> bal(actsStepN(creditLedger(sweepLedger(old(bank), pktDenom(packet)), packet), pktAmount(packet), pktDenom(packet), theOp().Payload.PreActions, plN(theOp().Payload)), core.ModuleAddress, pktDenom(packet)) == plOut(pktAmount(packet), theOp().Payload)
 //@   ensures[C02] ackSuccess(ack) && forOrb(packet) ==> forall d string :: supply(xferLedger(packet, theOp().Payload), d) == supply(old(bank), d) - ite(isCCTPAttr(plAttr(theOp().Payload)) && d == pktDenom(packet), plOut(pktAmount(packet), theOp().Payload), 0)
 //@   ensures[C02] ackSuccess(ack) && forOrb(packet) ==> forall x Addr, d string :: d != pktDenom(packet) ==> bal(xferLedger(packet, theOp().Payload), x, d) == bal(old(bank), x, d)
 //@   ensures[C02] ackSuccess(ack) && forOrb(packet) ==> forall x Addr :: x != escrowAddr(packet.DestinationPort, packet.DestinationChannel) && x != core.ModuleAddress && x != dustAddr() &&
 //@                  !feeRcpt2(x, theOp().Payload) && !(isHypAttr(plAttr(theOp().Payload)) && x == warpAccount(hexstr(toarray32(cast(plAttr(theOp().Payload), "*types/controller/forwarding.HypAttributes").TokenId)))) &&
 //@                  !(isIntAttr(plAttr(theOp().Payload)) && x == decodeAddr(cast(plAttr(theOp().Payload), "*types/controller/forwarding.InternalAttributes").Recipient)) ==>
 //@                  bal(xferLedger(packet, theOp().Payload), x, pktDenom(packet)) == bal(old(bank), x, pktDenom(packet))
+//
+//   C11: coins already on the orbiter account never alter, fund or block a transfer.
+//   - Whatever the account held, the ledger the ICS-20 application (and then the dispatch) starts from has
+//     an orbiter balance of zero in the transferred denomination, so after the release the orbiter holds
+//     exactly the packet amount; the sweep itself cannot fail (BeforeTransferHook clause, A-MACC).
+//   - On success the ledger is the closed form above, in which every amount except the sweep's own is a
+//     function of the packet (fees of the packet amount, the remainder to the route); the route is entered
+//     with exactly that remainder on the account and forwards exactly it; the pre-existing balance of the
+//     transferred denomination is on the dust collector; other denominations stay where they were.
+//@   ensures[C11] forOrb(packet) && wrapped_n > old(wrapped_n) ==> bal(wrapped_bank0, core.ModuleAddress, pktDenom(packet)) == 0
+//@   ensures[C11] forOrb(packet) && wrapped_n > old(wrapped_n) && ackSuccess(wrapped_ret) ==> bal(wrapped_bank, core.ModuleAddress, pktDenom(packet)) == pktAmount(packet)
+//@   ensures[C11] ackSuccess(ack) && forOrb(packet) ==> val(theOp().TransferAttributes.destinationCoin.Amount) == plOut(pktAmount(packet), theOp().Payload) && theOp().TransferAttributes.destinationCoin.Denom == pktDenom(packet)
+//@   ensures[C11] ackSuccess(ack) && forOrb(packet) ==> bal(bank, core.ModuleAddress, pktDenom(packet)) == 0
+//@   ensures[C11] ackSuccess(ack) && forOrb(packet) ==> bal(xferLedger(packet, theOp().Payload), dustAddr(), pktDenom(packet)) >= bal(old(bank), dustAddr(), pktDenom(packet)) + bal(old(bank), core.ModuleAddress, pktDenom(packet))
+//@   ensures[C11] ackSuccess(ack) && forOrb(packet) ==> forall d string :: d != pktDenom(packet) ==> bal(xferLedger(packet, theOp().Payload), core.ModuleAddress, d) == bal(old(bank), core.ModuleAddress, d)
 //
 //   C14: the receive path returns an acknowledgement for every input (the safety obligations - nil
 //   dereference, bounds, conversions, type assertions, explicit panics, panicking library calls - are
